@@ -12,6 +12,8 @@ import parsegen as PG
 from runner import CorrResult  # noqa: F401
 
 CORPUS = [
+    # one witness per finding class first, and plain neighbours 
+    "x OR y z", "a AND b -c", "a(b)", "a b", "a +b", "-xT12 :30", ">=1 <5", "[1 TO *] AND [* TO 5]", "(a)AND(b OR c)", "f:(a b) c",
     # F10: the inserted operator is captured by / captures a neighbouring operator
     "x OR y z", "a OR b c AND d e", "a OR b c", "x OR y (z)", "a AND b -c", "a OR b +c", "a AND b TO", "f:(x OR y z)",
     "(x OR y z) w", "NOT a OR b c",
@@ -267,7 +269,7 @@ def correspond(model_ok, res):
     cases, payloads = [], []
     parsed_strings, parsed_results = [], []
     seen = set()
-    dist = {"rejected_inputs": 0, "transformer": {}, "verdict": {}, "atoms": {}, "non_exhaustive_tables": 0,
+    dist = {"rejected_inputs": 0, "oracle_evaluations": 0, "transformer": {}, "verdict": {}, "atoms": {}, "non_exhaustive_tables": 0,
             "finding_class": {}, "non_default_add_head_verdicts": {}, "printed_differs_from_query": 0,
             "reparsed_tree_differs_from_transformed": 0}
     for si, s in enumerate(strings):
@@ -279,10 +281,14 @@ def correspond(model_ok, res):
         parsed_results.append((kind, tree))
         nnodes = len(list(gentree.all_nodes(tree)))
         if si < len(CORPUS):
-            todo = shipped + ([r.choice(extra)] if extra else [])
+            todo = shipped + [r.choice(extra)]
         else:
             todo = shipped[:2] + r.sample(shipped[2:], 4) + [r.choice(extra)]
+        # the model side (vm_compute of the composed models) runs on a sample in the quick tier
+        in_model = set(range(len(todo))) if (not quick or si < len(CORPUS)) else set(r.sample(range(len(todo)), 3))
+        ti = -1
         for name, opts, fn, gterm, is_shipped in todo:
+            ti += 1
             payload = {"query": s, "transformer": name, "options": opts}
             before = tree.__repr__() + tree.__str__(head_tail=True)
             try:
@@ -328,6 +334,9 @@ def correspond(model_ok, res):
             else:
                 dv = dist["non_default_add_head_verdicts"]
                 dv[verdict] = dv.get(verdict, 0) + 1
+            dist["oracle_evaluations"] += 1
+            if ti not in in_model:
+                continue
             try:
                 exp_t2 = "None" if t2 is None else "(Some %s)" % lib.g_item(t2)
             except lib.Unmodelled:
@@ -341,9 +350,12 @@ def correspond(model_ok, res):
     res.rule = ("grammar-directed parsed queries (every production, random Unicode-whitespace layout, chains mixing "
                 "explicit / implicit operators and open ranges) and a fixed corpus x the shipped transformers (copy, "
                 "auto_head_tail, resolver x 4 targets, open ranges x merge, resolve-then-open-range x 8), plus "
-                "add_head in {'', newline} for the model only; non-trivial = distinct (query, shipped transformer) "
-                "whose parsed tree has more than one node")
-    res.samples = payloads[14 * 20:14 * 20 + 6]
+                "add_head in {'', newline} for the model only. The Python oracle runs on every (query, transformer) "
+                "(input_distribution.oracle_evaluations); the composed Coq models are evaluated on all of them in the "
+                "thorough tier; in the quick tier on all of them for the fixed corpus and on 3 of the 7 transformers drawn "
+                "for each generated query (= the number of cases); non-trivial = distinct "
+                "(query, shipped transformer) whose parsed tree has more than one node")
+    res.samples = payloads[150:156] or payloads[:6]
     res.distribution = dist
     if not model_ok:
         res.model_error = "model did not build"
@@ -359,7 +371,7 @@ def correspond(model_ok, res):
             "          | Some (Ok a), Some b => item_beq a b\n"
             "          | Some (Err _), None => true\n"
             "          | _, _ => false\n"
-            "          end && (negb dov || verdict_eqb (c11_verdict T t) v)\n"
+            "          end && (if dov then verdict_eqb (c11_verdict T t) v else true)\n"
             "      | None => verdict_eqb v VRaised\n"
             "      end\n"
             "  | _ => false\n"
@@ -395,7 +407,8 @@ SPEC = {
     "theorems": ["C11_refuted", "C11_resolve_and_refuted", "C11_resolve_lucene_refuted", "C11_resolve_or_refuted",
                  "C11_refuted_F10b", "C11_refuted_F10b_or", "C11_refuted_F10c", "C11_refuted_F1", "C11_aht_refuted",
                  "C11_open_range_refuted", "C11_resolve_open_refuted", "C11_every_transformer_refuted",
-                 "C11_meaning_respects_equality", "C11_meaning_eqb_correct", "C11_parsed_wellformed",
+                 "C11_meaning_respects_equality", "C11_meaning_eqb_correct", "C11_verdict_is_statement",
+                 "C11_parsed_wellformed",
                  "C11_copy_partial", "C11_copy_total",
                  "C11_equal_tree_modulo_lexing", "C11_copy_modulo_lexing", "C11_aht_modulo_lexing", "C11_aht_total"],
     "correspond": correspond,
